@@ -30,7 +30,7 @@ pub static PROP: PropDef = PropDef {
         "three-valued validator in src/reference/fields.rs; where the statement is silent (misplaced / repeated pseudo fields, pseudo fields in trailers, :status in a request, missing :scheme/:path, C0 controls other than CR/LF/NUL) either behaviour passes",
     ],
     tape_len: 400,
-    random_cases: |t| t.pick(150_000, 6_000_000),
+    random_cases: |t| t.pick(600_000, 20_000_000),
     run_tape,
     exhaustive: Some(exhaustive),
     run_direct: Some(run_direct),
@@ -174,6 +174,7 @@ async fn api_client(net: Net, kind: MsgKind, o: Shared<Obs>, sp: Spawner) {
         std::future::pending::<()>().await;
         drop(conn);
     });
+    let mut keep = Vec::new();
     for k in 0..2 {
         let req = http::Request::builder().method("GET").uri("https://example.com/").body(()).unwrap();
         let Ok(mut s) = sr.send_request(req).await else { break };
@@ -208,10 +209,10 @@ async fn api_client(net: Net, kind: MsgKind, o: Shared<Obs>, sp: Spawner) {
             o.borrow_mut().second = Some(r);
         }
         // keep the stream until the end
-        std::mem::forget(s);
+        keep.push(s);
     }
     std::future::pending::<()>().await;
-    drop(sr);
+    drop((sr, keep));
 }
 
 /// `server`: the h3 end under test is the server (request / request trailers), else the client
